@@ -28,7 +28,7 @@ EXPLANATION = (
     'then low, in both LED writers; R6 range report: 5-byte <Bf records consumed in order under len%5==0; lighthouse stream: <Bfhhhfhhh, '
     'sensor k = base - fp16(offset k). Value exactness over all 65536 patterns and the quantisation bound are numeric and not decided.')
 ASSUMPTIONS = ['IEEE-754 binary16/binary32 field widths (1,5,10)/(1,8,23), biases 15/127']
-FLOORS = {'R1': 4, 'R2': 9, 'R3': 9, 'R4': 10, 'R5': 14, 'R6': 12}
+FLOORS = {'R7': 1, 'R1': 4, 'R2': 9, 'R3': 9, 'R4': 10, 'R5': 14, 'R6': 12}
 
 
 def assigns(func):
@@ -37,6 +37,7 @@ def assigns(func):
 
 def check(ctx):
     m = ctx.model
+    mutable_default_rule(ctx, [ENC, TRJ, LED, LEDT, LOC], 'R7')
     # ---- R1 / R2: fp16 --------------------------------------------------------------
     f = m.func(ENC, 'fp16_to_float')
     x = f.params[0]
@@ -90,46 +91,7 @@ def check(ctx):
     ctx.inst('R2', f, 'inf-nan', oki, 'exponent 31 maps to sign | 0x7f800000 (| fraction << 13)')
     del aug
 
-    # ---- R3: quaternion ----------------------------------------------------------------
-    cq = m.func(ENC, 'compress_quaternion')
-    dq = m.func(ENC, 'decompress_quaternion')
-    wl = [l for l in walk_own(cq.node) if isinstance(l, ast.For) and any(isinstance(s, ast.Assign) and norm(s.targets[0]) == 'comp' for s in walk_own(l))]
-    rl = [l for l in walk_own(dq.node) if isinstance(l, ast.For)]
-    ctx.need(len(wl) == 1 and len(rl) == 1, 'quaternion codec loops not found')
-    ctx.inst('R3', cq, 'writer-order-ascending', fold_in(cq, wl[0].iter) == (0, 1, 2, 3), 'writer visits components 0..3 ascending; iter %s' % norm(wl[0].iter))
-    ctx.inst('R3', dq, 'reader-order-descending', fold_in(dq, rl[0].iter) == (3, 2, 1, 0), 'reader visits components 3..0 descending; iter %s' % norm(rl[0].iter))
-    wa = [s for s in walk_own(wl[0]) if isinstance(s, ast.Assign) and norm(s.targets[0]) == 'comp']
-    wb = B_.evaluate(wa[0].value, Scope.of(cq), {'comp': 'comp', 'negbit': 'neg', 'mag': 'mag'}, {'comp': 32, 'neg': 1, 'mag': 9})
-    ctx.inst('R3', cq, 'writer-group', B_.is_input_field(wb, 0, 9, 'mag') and B_.is_input_field(wb, 9, 1, 'neg') and B_.is_input_field(wb, 10, 22, 'comp'),
-             'each group is comp<<10 | sign<<9 | magnitude; bits %s' % B_.describe(wb, 14))
-    skipw = [i for i in walk_own(wl[0]) if isinstance(i, ast.If) and norm(i.test) == '%s != i_largest' % norm(wl[0].target)]
-    skipr = [i for i in walk_own(rl[0]) if isinstance(i, ast.If) and norm(i.test) == '%s != i_largest' % norm(rl[0].target)]
-    ctx.inst('R3', cq, 'largest-skipped', len(skipw) == 1 and len(skipr) == 1, 'both sides skip the largest component')
-    init = [s for s in cq.node.body if isinstance(s, ast.Assign) and norm(s.targets[0]) == 'comp']
-    ctx.inst('R3', cq, 'index-first', len(init) == 1 and norm(init[0].value) == 'i_largest', 'the word starts with the index of the largest component')
-    ra = {norm(s.targets[0]): s.value for s in walk_own(rl[0]) if isinstance(s, ast.Assign) and isinstance(s.targets[0], ast.Name)}
-    mask = [s for s in dq.node.body if isinstance(s, ast.Assign) and norm(s.targets[0]) == 'mask']
-    mv = fold_in(dq, mask[0].value) if mask else None
-    ctx.inst('R3', dq, 'reader-mask', mv == 511, 'magnitude mask must be (1<<9)-1; found %s' % mv)
-    okr = 'mag' in ra and 'negbit' in ra and 'comp' in ra
-    if okr:
-        mb = B_.evaluate(ra['mag'], Scope.of(dq, {'mask': 511}), {'comp': 'comp'}, {'comp': 32})
-        nb = B_.evaluate(ra['negbit'], Scope.of(dq), {'comp': 'comp'}, {'comp': 32})
-        cb = B_.evaluate(ra['comp'], Scope.of(dq), {'comp': 'comp'}, {'comp': 32})
-        okr = B_.is_input_field(mb, 0, 9, 'comp', 0) and all(b == 0 for b in mb[9:]) and B_.is_input_field(nb, 0, 1, 'comp', 9) and all(b == 0 for b in nb[1:]) and \
-            B_.is_input_field(cb, 0, 22, 'comp', 10)
-    ctx.inst('R3', dq, 'reader-group', okr, 'reader pops magnitude = bits 8..0, sign = bit 9, then shifts by 10')
-    il = [s for s in dq.node.body if isinstance(s, ast.Assign) and norm(s.targets[0]) == 'i_largest']
-    ctx.inst('R3', dq, 'index-shift=30', len(il) == 1 and norm(il[0].value) == 'comp >> 30', 'index is read from bits 31..30 (3 groups x 10 bits)')
-    wm = [s for s in walk_own(wl[0]) if isinstance(s, ast.Assign) and norm(s.targets[0]) == 'mag']
-    ms = [s for s in cq.node.body if isinstance(s, ast.Assign) and norm(s.targets[0]) == 'M_SQRT1_2']
-    okw = len(wm) == 1 and norm(wm[0].value) == 'int(((1 << 9) - 1) * (abs(quat_n[%s]) / M_SQRT1_2) + 0.5)' % norm(wl[0].target) and \
-        len(ms) == 1 and norm(ms[0].value) in ('1.0 / np.sqrt(2)', '1 / np.sqrt(2)', '1.0 / math.sqrt(2)')
-    ctx.inst('R3', cq, 'writer-scale', okw, 'magnitude = round(511 * |q| / (1/sqrt2))')
-    rq = [s for s in walk_own(rl[0]) if isinstance(s, ast.Assign) and norm(s.targets[0]) == 'q[%s]' % norm(rl[0].target)]
-    ctx.inst('R3', dq, 'reader-scale', any(norm(s.value) in ('mag / mask / np.sqrt(2)', 'mag / mask / math.sqrt(2)') for s in rq), 'component = magnitude / 511 / sqrt2')
-    ns = [s for s in walk_own(wl[0]) if isinstance(s, ast.Assign) and norm(s.targets[0]) == 'negbit']
-    ctx.inst('R3', cq, 'sign-relative-to-largest', len(ns) == 1 and norm(ns[0].value) == 'int((quat_n[%s] < 0) ^ negate)' % norm(wl[0].target), 'sign bit is relative to the sign of the largest component')
+    quaternion_rules(ctx, 'R3')
 
     # ---- R4: trajectory ----------------------------------------------------------------------
     cb_ = m.cls(TRJ, '_CompressedBase')
@@ -239,6 +201,90 @@ def check(ctx):
             want = 'raw_data[%d] - fp16_to_float(raw_data[%d])' % (base, base + k)
             ctx.inst('R6', la, 'lh-%s%d' % (axis, k), st.get("decoded_data['%s'][%d]" % (axis, k)) == want, 'sensor %d %s angle = %s; found %s' % (k, axis, want, st.get("decoded_data['%s'][%d]" % (axis, k))))
 
+
+
+def quaternion_rules(ctx, rule='R3'):
+    """Quaternion writer/reader agreement (shared with C08: the full-state set-point carries the compressed orientation)."""
+    m = ctx.model
+    # ---- R3: quaternion ----------------------------------------------------------------
+    cq = m.func(ENC, 'compress_quaternion')
+    dq = m.func(ENC, 'decompress_quaternion')
+    wl = [l for l in walk_own(cq.node) if isinstance(l, ast.For) and any(isinstance(s, ast.Assign) and norm(s.targets[0]) == 'comp' for s in walk_own(l))]
+    rl = [l for l in walk_own(dq.node) if isinstance(l, ast.For)]
+    ctx.need(len(wl) == 1 and len(rl) == 1, 'quaternion codec loops not found')
+    ctx.inst(rule, cq, 'writer-order-ascending', fold_in(cq, wl[0].iter) == (0, 1, 2, 3), 'writer visits components 0..3 ascending; iter %s' % norm(wl[0].iter))
+    ctx.inst(rule, dq, 'reader-order-descending', fold_in(dq, rl[0].iter) == (3, 2, 1, 0), 'reader visits components 3..0 descending; iter %s' % norm(rl[0].iter))
+    sel = [l for l in walk_own(cq.node) if isinstance(l, ast.For) and any(isinstance(x, ast.Assign) and norm(x.targets[0]) == 'i_largest' for x in walk_own(l))]
+    oks = False
+    if len(sel) == 1:
+        iv_ = norm(sel[0].target)
+        tests = [i for i in walk_own(sel[0]) if isinstance(i, ast.If)]
+        oks = len(tests) == 1 and norm(tests[0].test) in ('abs(quat_n[%s]) > abs(quat_n[i_largest])' % iv_, 'abs(quat_n[i_largest]) < abs(quat_n[%s])' % iv_) and \
+            fold_in(cq, sel[0].iter) in ((1, 2, 3), (0, 1, 2, 3))
+    else:
+        am = [s_ for s_ in cq.node.body if isinstance(s_, ast.Assign) and norm(s_.targets[0]) == 'i_largest']
+        oks = len(am) == 1 and norm(am[0].value).replace(' ', '') in ('int(np.argmax(np.abs(quat_n)))', 'np.argmax(np.abs(quat_n))', 'int(np.argmax(abs(quat_n)))')
+    ctx.inst(rule, cq, 'largest-by-magnitude', oks, 'the dropped component must be the one of largest MAGNITUDE (abs); otherwise a kept component can exceed 1/sqrt2 and overflow its 9 bits')
+    wa = [s for s in walk_own(wl[0]) if isinstance(s, ast.Assign) and norm(s.targets[0]) == 'comp']
+    wb = B_.evaluate(wa[0].value, Scope.of(cq), {'comp': 'comp', 'negbit': 'neg', 'mag': 'mag'}, {'comp': 32, 'neg': 1, 'mag': 9})
+    ctx.inst(rule, cq, 'writer-group', B_.is_input_field(wb, 0, 9, 'mag') and B_.is_input_field(wb, 9, 1, 'neg') and B_.is_input_field(wb, 10, 22, 'comp'),
+             'each group is comp<<10 | sign<<9 | magnitude; bits %s' % B_.describe(wb, 14))
+    skipw = [i for i in walk_own(wl[0]) if isinstance(i, ast.If) and norm(i.test) == '%s != i_largest' % norm(wl[0].target)]
+    skipr = [i for i in walk_own(rl[0]) if isinstance(i, ast.If) and norm(i.test) == '%s != i_largest' % norm(rl[0].target)]
+    ctx.inst(rule, cq, 'largest-skipped', len(skipw) == 1 and len(skipr) == 1, 'both sides skip the largest component')
+    init = [s for s in cq.node.body if isinstance(s, ast.Assign) and norm(s.targets[0]) == 'comp']
+    ctx.inst(rule, cq, 'index-first', len(init) == 1 and norm(init[0].value) == 'i_largest', 'the word starts with the index of the largest component')
+    ra = {norm(s.targets[0]): s.value for s in walk_own(rl[0]) if isinstance(s, ast.Assign) and isinstance(s.targets[0], ast.Name)}
+    mask = [s for s in dq.node.body if isinstance(s, ast.Assign) and norm(s.targets[0]) == 'mask']
+    mv = fold_in(dq, mask[0].value) if mask else None
+    ctx.inst(rule, dq, 'reader-mask', mv == 511, 'magnitude mask must be (1<<9)-1; found %s' % mv)
+    okr = 'mag' in ra and 'negbit' in ra and 'comp' in ra
+    if okr:
+        mb = B_.evaluate(ra['mag'], Scope.of(dq, {'mask': 511}), {'comp': 'comp'}, {'comp': 32})
+        nb = B_.evaluate(ra['negbit'], Scope.of(dq), {'comp': 'comp'}, {'comp': 32})
+        cb = B_.evaluate(ra['comp'], Scope.of(dq), {'comp': 'comp'}, {'comp': 32})
+        okr = B_.is_input_field(mb, 0, 9, 'comp', 0) and all(b == 0 for b in mb[9:]) and B_.is_input_field(nb, 0, 1, 'comp', 9) and all(b == 0 for b in nb[1:]) and \
+            B_.is_input_field(cb, 0, 22, 'comp', 10)
+    ctx.inst(rule, dq, 'reader-group', okr, 'reader pops magnitude = bits 8..0, sign = bit 9, then shifts by 10')
+    il = [s for s in dq.node.body if isinstance(s, ast.Assign) and norm(s.targets[0]) == 'i_largest']
+    ctx.inst(rule, dq, 'index-shift=30', len(il) == 1 and norm(il[0].value) == 'comp >> 30', 'index is read from bits 31..30 (3 groups x 10 bits)')
+    wm = [s for s in walk_own(wl[0]) if isinstance(s, ast.Assign) and norm(s.targets[0]) == 'mag']
+    ms = [s for s in cq.node.body if isinstance(s, ast.Assign) and norm(s.targets[0]) == 'M_SQRT1_2']
+    okw = len(wm) == 1 and norm(wm[0].value) == 'int(((1 << 9) - 1) * (abs(quat_n[%s]) / M_SQRT1_2) + 0.5)' % norm(wl[0].target) and \
+        len(ms) == 1 and norm(ms[0].value) in ('1.0 / np.sqrt(2)', '1 / np.sqrt(2)', '1.0 / math.sqrt(2)')
+    ctx.inst(rule, cq, 'writer-scale', okw, 'magnitude = round(511 * |q| / (1/sqrt2))')
+    rq = [s for s in walk_own(rl[0]) if isinstance(s, ast.Assign) and norm(s.targets[0]) == 'q[%s]' % norm(rl[0].target)]
+    ctx.inst(rule, dq, 'reader-scale', any(norm(s.value) in ('mag / mask / np.sqrt(2)', 'mag / mask / math.sqrt(2)') for s in rq), 'component = magnitude / 511 / sqrt2')
+    ns = [s for s in walk_own(wl[0]) if isinstance(s, ast.Assign) and norm(s.targets[0]) == 'negbit']
+    ctx.inst(rule, cq, 'sign-relative-to-largest', len(ns) == 1 and norm(ns[0].value) == 'int((quat_n[%s] < 0) ^ negate)' % norm(wl[0].target), 'sign bit is relative to the sign of the largest component')
+
+
+
+def mutable_default_rule(ctx, paths, rule):
+    """A parameter whose default is a mutable literal and that the body mutates or returns is shared between calls
+    (state leaks from one decoded packet / object into the next)."""
+    n = 0
+    for path in paths:
+        for f in ctx.model.mod(path).all_funcs():
+            for pname, d in f.defaults().items():
+                mutable = isinstance(d, (ast.Dict, ast.List, ast.Set)) or (isinstance(d, ast.Call) and norm(d.func) in ('dict', 'list', 'set', 'bytearray'))
+                if not mutable:
+                    continue
+                n += 1
+                used = []
+                for x in ast.walk(f.node):
+                    if isinstance(x, (ast.Assign, ast.AugAssign)):
+                        for t in (x.targets if isinstance(x, ast.Assign) else [x.target]):
+                            if isinstance(t, ast.Subscript) and norm(t.value) == pname or (isinstance(x, ast.AugAssign) and norm(t) == pname):
+                                used.append(norm(x)[:40])
+                    elif isinstance(x, ast.Call) and isinstance(x.func, ast.Attribute) and norm(x.func.value) == pname and x.func.attr in (
+                            'append', 'extend', 'update', 'add', 'insert', 'pop', 'clear', 'setdefault', 'remove'):
+                        used.append(norm(x)[:40])
+                    elif isinstance(x, ast.Return) and x.value is not None and norm(x.value) == pname:
+                        used.append('return ' + pname)
+                ctx.inst(rule, f, 'shared-mutable-default:' + pname, not used,
+                         'parameter %s defaults to a mutable object that is shared between calls and is %s: results of one call leak into the next' % (pname, used))
+    ctx.inst(rule, paths[0], 'mutable-defaults-scanned', True, '%d mutable defaults inspected in %d modules' % (n, len(paths)))
 
 
 def reinterpret(node):
